@@ -1761,8 +1761,9 @@ package main
 //@   ensures progress: result.E0.tkz.current.begin > ps.tkz.current.begin
 
 //@ func blockToExpr
-//@   trusted
-//@   panics may
+//@   props C06 C09
+//@   panics never
+//@   ensures wraps-the-block: is(Expr_EReturnableExpr, result) && is(ReturnableExpr_RBlock, Expr_EReturnableExpr_Value(result)) && ReturnableExpr_RBlock_Value(Expr_EReturnableExpr_Value(result)) == block
 
 //@ func parseLetFuncDef
 //@   props C06 C07
@@ -1779,14 +1780,19 @@ package main
 //@   at before call psCurIs#0: L = glob(vardefs)
 
 //@ func newIfElseCall
-//@   trusted
+//@   props C06
 //@   panics may
+//@   ensures call: is(Expr_EFunCall, result) && (VarRef_VRVar_Value(Expr_EFunCall_Value(result).TargetFunc).Name == "frt.IfElse" || VarRef_VRVar_Value(Expr_EFunCall_Value(result).TargetFunc).Name == "frt.IfElseUnit")
+//@   ensures condition-then-else-in-order: len(Expr_EFunCall_Value(result).Args) == 3 && Expr_EFunCall_Value(result).Args[0] == cond && is(Expr_ELazyBlock, Expr_EFunCall_Value(result).Args[1]) && Expr_ELazyBlock_Value(Expr_EFunCall_Value(result).Args[1]).Block == tbody && is(Expr_ELazyBlock, Expr_EFunCall_Value(result).Args[2]) && Expr_ELazyBlock_Value(Expr_EFunCall_Value(result).Args[2]).Block == fbody
 //@ func newIfOnlyCall
-//@   trusted
+//@   props C06
 //@   panics may
+//@   ensures call: is(Expr_EFunCall, result) && VarRef_VRVar_Value(Expr_EFunCall_Value(result).TargetFunc).Name == "frt.IfOnly"
+//@   ensures condition-then-block: len(Expr_EFunCall_Value(result).Args) == 2 && Expr_EFunCall_Value(result).Args[0] == cond && is(Expr_ELazyBlock, Expr_EFunCall_Value(result).Args[1]) && Expr_ELazyBlock_Value(Expr_EFunCall_Value(result).Args[1]).Block == tbody
 //@ func exprOnlyBlock
-//@   trusted
+//@   props C06 C09
 //@   panics never
+//@   ensures only-the-expression: len(result.Stmts) == 0 && result.FinalExpr == expr
 
 // if ... then / else on several lines: every block body is parsed from a token that is not an end-of-line
 //@ func parseIfAfterIfExpr
@@ -2252,8 +2258,11 @@ package main
 //@   ensures string-target: is(FType_FString, exprtype(target)) ==> !result
 
 //@ func isStringMatchRules
-//@   trusted
+//@   props C09 C16
+//@   requires live: live(ps0)
 //@   panics may
+//@   ensures string-target: is(FType_FString, exprtype(target)) ==> result
+//@   ensures union-target: is(FType_FUnion, exprtype(target)) ==> !result
 //@ func psNextTT
 //@   props C06 C09 C16
 //@   requires live: live(ps)
